@@ -501,11 +501,27 @@ func runWidthTable(rr *RuleRun) {
 			continue
 		}
 		var sw *ast.SwitchStmt
+		tagName := ""
+		isBits := func(e ast.Expr) bool {
+			call, ok := ast.Unparen(e).(*ast.CallExpr)
+			if !ok {
+				return false
+			}
+			f := callee(info, call)
+			return f != nil && f.Name() == "Bits"
+		}
 		ast.Inspect(fd.Body, func(n ast.Node) bool {
 			if s, ok := n.(*ast.SwitchStmt); ok && s.Tag != nil && sw == nil {
-				if call, ok := ast.Unparen(s.Tag).(*ast.CallExpr); ok {
-					if f := callee(info, call); f != nil && f.Name() == "Bits" {
-						sw = s
+				if isBits(s.Tag) {
+					sw = s
+				} else if id, ok := ast.Unparen(s.Tag).(*ast.Ident); ok {
+					// switch bits := target.Type().Bits(); bits { … }  or  bits := …Bits() before the switch
+					if as, ok := s.Init.(*ast.AssignStmt); ok && len(as.Lhs) == 1 && len(as.Rhs) == 1 && objOf(info, as.Lhs[0]) == objOf(info, id) && isBits(as.Rhs[0]) {
+						sw, tagName = s, id.Name
+					} else if o := objOf(info, id); o != nil {
+						if _, idx, rhs := findDefine(info, fd.Body, o); rhs != nil && len(rhs) > idx && isBits(rhs[idx]) && countAssigns(info, fd.Body, o) == 0 {
+							sw, tagName = s, id.Name
+						}
 					}
 				}
 			}
@@ -543,22 +559,37 @@ func runWidthTable(rr *RuleRun) {
 					wantMin = new(big.Int).Neg(wantMax)
 				}
 				wantMax.Sub(wantMax, big.NewInt(1))
+				// evaluate the clause body for this width: constants, and arithmetic over the width
+				// variable and over names assigned earlier in the clause (min = -max - 1, 1<<(bits-1) - 1)
 				got := map[string]*big.Int{}
+				env := map[string]constant.Value{}
+				if tagName != "" {
+					env[tagName] = constant.MakeInt64(n)
+				}
+				undecided := ""
 				for _, st := range cc.Body {
 					as, ok := st.(*ast.AssignStmt)
 					if !ok || len(as.Lhs) != 1 || len(as.Rhs) != 1 {
 						continue
 					}
-					tv, ok := info.Types[as.Rhs[0]]
-					if !ok || tv.Value == nil {
+					v := evalConst(info, as.Rhs[0], env)
+					if v == nil {
+						undecided = exprStr(as.Lhs[0]) + " = " + exprStr(as.Rhs[0])
 						continue
 					}
-					if bi, ok := constant.Val(constant.ToInt(tv.Value)).(*big.Int); ok {
+					env[exprStr(as.Lhs[0])] = v
+					if bi, ok := constant.Val(constant.ToInt(v)).(*big.Int); ok {
 						got[exprStr(as.Lhs[0])] = bi
-					} else if i64, ok := constant.Int64Val(constant.ToInt(tv.Value)); ok {
+					} else if i64, ok := constant.Int64Val(constant.ToInt(v)); ok {
 						got[exprStr(as.Lhs[0])] = big.NewInt(i64)
-					} else if u64, ok := constant.Uint64Val(constant.ToInt(tv.Value)); ok {
+					} else if u64, ok := constant.Uint64Val(constant.ToInt(v)); ok {
 						got[exprStr(as.Lhs[0])] = new(big.Int).SetUint64(u64)
+					}
+				}
+				if undecided != "" {
+					if _, haveMax := got["max"]; !haveMax || (spec.signed && got["min"] == nil) {
+						rr.Assumed(key, cc.Pos(), "the bounds of this width are not compile-time computable ("+undecided+")")
+						continue
 					}
 				}
 				bad := ""
@@ -770,4 +801,47 @@ func runUnknownNullFirst(rr *RuleRun) {
 			rr.Violation(key, dispatch.Pos(), "the kind dispatch is reachable with a value that is not "+f.Pred+": the per-kind decoders call accessors that panic on it")
 		}
 	}
+}
+
+
+// evalConst evaluates an integer expression built from constants, the names in env, unary minus,
+// + - * << >> and integer conversions. nil when it cannot be decided.
+func evalConst(info *types.Info, e ast.Expr, env map[string]constant.Value) constant.Value {
+	e = ast.Unparen(e)
+	if tv, ok := info.Types[e]; ok && tv.Value != nil {
+		return tv.Value
+	}
+	switch x := e.(type) {
+	case *ast.Ident:
+		if v, ok := env[x.Name]; ok {
+			return v
+		}
+	case *ast.UnaryExpr:
+		if v := evalConst(info, x.X, env); v != nil && (x.Op == token.SUB || x.Op == token.ADD) {
+			return constant.UnaryOp(x.Op, v, 0)
+		}
+	case *ast.BinaryExpr:
+		a, b := evalConst(info, x.X, env), evalConst(info, x.Y, env)
+		if a == nil || b == nil {
+			return nil
+		}
+		switch x.Op {
+		case token.ADD, token.SUB, token.MUL:
+			return constant.BinaryOp(constant.ToInt(a), x.Op, constant.ToInt(b))
+		case token.SHL, token.SHR:
+			if n, ok := constant.Uint64Val(constant.ToInt(b)); ok && n < 200 {
+				return constant.Shift(constant.ToInt(a), x.Op, uint(n))
+			}
+		}
+	case *ast.CallExpr:
+		// integer conversion int64(x), uint(x) …
+		if len(x.Args) == 1 {
+			if tv, ok := info.Types[x.Fun]; ok && tv.IsType() {
+				if b, ok := tv.Type.Underlying().(*types.Basic); ok && b.Info()&types.IsInteger != 0 {
+					return evalConst(info, x.Args[0], env)
+				}
+			}
+		}
+	}
+	return nil
 }
